@@ -66,6 +66,11 @@ func scribble(root *jsonschema.Schema) {
 				for j := range sl {
 					sl[j] = &jsonschema.Schema{Title: "scribbled"}
 				}
+				// ... and the list itself grows (an assignment to the field): within its capacity append writes
+				// into the backing array, which must not be the other tree's
+				if sl != nil && fv.CanSet() {
+					fv.Set(reflect.ValueOf(append(sl, &jsonschema.Schema{Title: "appended"}, &jsonschema.Schema{Title: "appended too"})))
+				}
 			case tSchemaMap:
 				m := fv.Interface().(map[string]*jsonschema.Schema)
 				for k := range m {
